@@ -923,6 +923,22 @@ func (t *http2Client) NewStream(ctx context.Context, callHdr *CallHdr, handler s
 			break
 		}
 		if hdrListSizeErr != nil {
+			if !firstTry {
+				// This call was woken up while waiting for stream quota and
+				// gives up without using it: stop counting it as a waiter and
+				// pass the wake-up on, so that another waiter is not left
+				// parked while quota is available.
+				t.controlBuf.executeAndPut(func() bool {
+					t.waitingStreams--
+					if t.streamQuota > 0 && t.waitingStreams > 0 {
+						select {
+						case t.streamsQuotaAvailable <- struct{}{}:
+						default:
+						}
+					}
+					return true
+				}, nil)
+			}
 			return nil, &NewStreamError{Err: hdrListSizeErr}
 		}
 		firstTry = false
